@@ -967,6 +967,17 @@ func (c *plCond) UsesCol(role string) bool {
 
 var plCmps = []string{"=", "<>", "<", "<=", ">", ">="}
 
+// plStrVals are values of the string column v; plStrLits the same as SQL literals (default
+// sql_mode: a backslash inside a literal is written doubled).
+var plStrVals = []string{"c:\\tmp", "x\\n", "100\\%", "plain", "a\\\\b"}
+var plStrLits = func() []plLit {
+	var out []plLit
+	for _, v := range plStrVals {
+		out = append(out, plLit{SQL: "'" + strings.Replace(v, "\\", "\\\\", -1) + "'", Class: "s"})
+	}
+	return out
+}()
+
 var plOtherLits = []plLit{{SQL: "1", Class: "o"}, {SQL: "7", Class: "o"}, {SQL: "3", Class: "o"}}
 
 // plGenAtom draws one atom. roles lists the column roles usable besides "key".
@@ -984,6 +995,14 @@ func plGenAtom(r *kit.Rand, c *plCfg, roles []string) *plCond {
 				return &plCond{Op: "in", Col: "other", Neg: r.Bool(), Lits: []plLit{plOtherLits[r.Intn(3)], plOtherLits[r.Intn(3)]}}
 			default:
 				return &plCond{Op: "cmp", Col: "other", Cmp: plCmps[r.Intn(6)], Lits: []plLit{plOtherLits[r.Intn(3)]}}
+			}
+		case "v":
+			// string column: literals with quotes-free text and with backslashes (paths, escapes)
+			switch r.Intn(3) {
+			case 0:
+				return &plCond{Op: "in", Col: "v", Neg: r.Bool(), Lits: []plLit{plStrLits[r.Intn(len(plStrLits))], plStrLits[r.Intn(len(plStrLits))]}}
+			default:
+				return &plCond{Op: "cmp", Col: "v", Cmp: plCmps[r.Intn(6)], Lits: []plLit{plStrLits[r.Intn(len(plStrLits))]}}
 			}
 		case "gkey":
 			return &plCond{Op: "cmp", Col: "gkey", Cmp: plCmps[r.Intn(6)], Lits: []plLit{{SQL: strconv.Itoa(r.Intn(3) + 1), Class: "g"}}}
@@ -1043,7 +1062,7 @@ func plShrinkCond(c *plCond, fails func(*plCond) bool) *plCond {
 	}
 }
 
-var plClassRank = map[string]int{"out": 0, "neg": 0, "g": 0, "o": 0, "v": 1, "start": 1, "in": 2, "finer": 2, "big": 2}
+var plClassRank = map[string]int{"s": 0, "out": 0, "neg": 0, "g": 0, "o": 0, "v": 1, "start": 1, "in": 2, "finer": 2, "big": 2}
 
 // plLitSlots lists pointers to every literal of the tree (pre-order).
 func plLitSlots(c *plCond, out *[]*plLit) {
@@ -1067,7 +1086,7 @@ func plShrinkLits(cfg *plCfg, c *plCond, fails func(*plCond) bool) *plCond {
 	scan:
 		for si := range slots {
 			have := slots[si].Class
-			if have == "o" || have == "g" {
+			if have == "o" || have == "g" || have == "s" {
 				continue
 			}
 			for _, cl := range []string{"out", "start", "v", "in", "finer", "big"} {
@@ -1173,7 +1192,7 @@ func plSpellX(c *plCfg, style, deco, tbl, key, alias string) plSpelled {
 		}
 		return x
 	}
-	sp.Cols = map[string]string{"key": sp.Q + up(key), "other": sp.Q + up("other"), "cnt": sp.Q + up("cnt")}
+	sp.Cols = map[string]string{"key": sp.Q + up(key), "other": sp.Q + up("other"), "cnt": sp.Q + up("cnt"), "v": sp.Q + up("v")}
 	return sp
 }
 
